@@ -169,6 +169,7 @@ def run(chk: Check) -> None:
             r1.violation(f"TypeState.{look}/{rec}: same store, keyed by right.type then kind then (left, right)", lf.loc(), "lookup and record no longer address the same entry")
 
     run_tuple_siblings(chk, ix)
+    run_cache_writers(chk, ix)
 
     # ---------------- R08.2
     r2 = chk.rule("R08.2", "for every Type subclass the attributes hashed by __hash__ are compared by __eq__ (equal values hash equal; the memo never misses or conflates because of an uncompared hashed field)", floor=15)
@@ -212,3 +213,77 @@ def run_tuple_siblings(chk: Check, ix) -> None:
         r3.ok(key, fj.loc(cj), f"guards {list(gj)}; lengths {dj}")
     else:
         r3.violation(key, fj.loc(cj), f"the sibling implementations disagree: join guards {list(gj)} lengths {dj}; meet guards {list(gm)} lengths {dm}. One of them splits a fixed tuple that is shorter than prefix+suffix (overlapping slices): the result is not a bound of both operands")
+
+
+def run_cache_writers(chk: Check, ix) -> None:
+    """R08.4: the subtype caches are filled only with answers to the question they are keyed for."""
+    from ..cfg import branch_conditions
+    r4 = chk.rule("R08.4", "who may fill the subtype caches and with what: record_subtype_cache_entry / record_negative_subtype_cache_entry are called only by SubtypeVisitor.visit_instance (key self._subtype_kind, checked by R08.1) and by is_protocol_implementation; in a function whose further parameters change the question that is answered for (left, right) (class_obj: about the class object; skip: ignoring members) every record is unreachable unless those parameters are excluded by a test, because the entry is later read as the answer to the plain instance question", floor=4)
+    REC = ("record_subtype_cache_entry", "record_negative_subtype_cache_entry")
+    allowed = {"mypy.subtypes.SubtypeVisitor.visit_instance", "mypy.subtypes.is_protocol_implementation"}
+    sites = []
+    for q, f in sorted(ix.functions.items()):
+        if f.module.name.startswith("mypy.test") or q.startswith("mypy.typestate.TypeState."):
+            continue
+        for c in ast.walk(f.node):
+            if isinstance(c, ast.Call) and call_name(c) in REC:
+                sites.append((f, c))
+    if len(sites) < 4:
+        raise AnalysisError(f"only {len(sites)} subtype cache record sites found")
+    for f, c in sites:
+        top = f
+        while top.parent is not None:
+            top = top.parent
+        key = f"{top.qualname}: {call_name(c)} is called from an allowed writer"
+        if top.qualname in allowed:
+            r4.ok(key, f.loc(c))
+        else:
+            r4.violation(key, f.loc(c), f"{top.qualname} writes the subtype cache; only visit_instance and is_protocol_implementation compute the keyed answer for (kind, left, right)")
+            continue
+        if top.qualname.endswith("visit_instance"):
+            continue
+        # parameters that are neither operands, nor inputs of the kind, nor tabled
+        params = [a.arg for a in f.node.args.args + f.node.args.kwonlyargs]
+        used = {n.id for a in c.args for n in ast.walk(a) if isinstance(n, ast.Name)}
+        kind_names: set[str] = set()
+        work = [n.id for n in ast.walk(c.args[0]) if isinstance(n, ast.Name)] if c.args else []
+        seen = set()
+        while work:
+            v = work.pop()
+            if v in seen:
+                continue
+            seen.add(v)
+            kind_names.add(v)
+            for st in ast.walk(f.node):
+                if isinstance(st, ast.Assign) and any(isinstance(t, ast.Name) and t.id == v for t in st.targets):
+                    work.extend(n.id for n in ast.walk(st.value) if isinstance(n, ast.Name))
+                    # the branch the assignment sits in
+                    pos, neg = branch_conditions(f.module.parents(), f.node, st)
+                    for t in pos + neg:
+                        work.extend(n.id for n in ast.walk(t) if isinstance(n, ast.Name))
+        tabled = {"options": "only passed through to the nested member checks; R08.1 decides which option reads are legitimate under the memo"}
+        changing = [p for p in params if p not in used and p not in kind_names and p not in tabled]
+        par = f.module.parents()
+        st = c
+        while not isinstance(st, ast.stmt):
+            st = par[st]
+        pos, neg = branch_conditions(par, f.node, st, early_exits=True)
+        excluded = {n.id for t in neg for n in ast.walk(t) if isinstance(n, ast.Name)} | {n.id for t in pos if isinstance(t, ast.UnaryOp) and isinstance(t.op, ast.Not) for n in ast.walk(t.operand) if isinstance(n, ast.Name)}
+        # a test on a local stands for a test on what the local was computed from
+        grow = True
+        while grow:
+            grow = False
+            for a in ast.walk(f.node):
+                if isinstance(a, ast.Assign) and any(isinstance(t, ast.Name) and t.id in excluded for t in a.targets):
+                    more = {n.id for n in ast.walk(a.value) if isinstance(n, ast.Name)} - excluded
+                    if more:
+                        excluded |= more
+                        grow = True
+        key = f"{top.qualname}: {call_name(c)}({', '.join(norm(a) for a in c.args)}) is reached only for the plain instance question"
+        missing = [p for p in changing if p not in excluded]
+        if not changing:
+            raise AnalysisError(f"{top.qualname}: no question-changing parameter recognised (params {params})")
+        if missing:
+            r4.violation(key, f.loc(c), f"the entry is recorded whatever {missing} is: with `{missing[0]}` set the function answers a different question about the same (left, right), and visit_instance later returns that answer for the instance question (the result of is_subtype depends on what was checked before)")
+        else:
+            r4.ok(key, f.loc(c), f"question-changing parameters {changing} are excluded by a test on every path to the record")
